@@ -38,14 +38,13 @@ P_CallerScript == [t \in P_Callers |-> CASE t = "s1" -> << <<"enq", "u1">>, <<"e
 P_MsgScript == [m \in P_Msgs |-> <<>>]
 
 \* ----- configuration R: three senders (two user messages from one sender, one system message),
-\* a Pause;Resume;Pause caller and a late Resume
-R_Callers == {"s1", "s2", "p1", "r1"}
+\* a Pause;Resume caller
+R_Callers == {"s1", "s2", "p1"}
 R_Msgs == {"u1", "u2", "y1"}
 R_Sys == {"y1"}
 R_CallerScript == [t \in R_Callers |-> CASE t = "s1" -> << <<"enq", "u1">>, <<"enq", "u2">> >>
                                         [] t = "s2" -> << <<"enq", "y1">> >>
-                                        [] t = "p1" -> << <<"pause">>, <<"resume">>, <<"pause">> >>
-                                        [] t = "r1" -> << <<"resume">> >>]
+                                        [] t = "p1" -> << <<"pause">>, <<"resume">> >>]
 R_MsgScript == [m \in R_Msgs |-> <<>>]
 
 \* ----- configuration S: handler pauses and resumes itself, sends to itself twice, outside pause
@@ -58,4 +57,12 @@ S_CallerScript == [t \in S_Callers |-> CASE t = "s1" -> << <<"enq", "u1">> >>
 S_MsgScript == [m \in S_Msgs |-> CASE m = "u1" -> << <<"enq", "u2">>, <<"enq", "y2">> >>
                                    [] m = "y1" -> << <<"pause">>, <<"enq", "u3">>, <<"resume">> >>
                                    [] OTHER -> <<>>]
+
+\* ----- configuration W: one message, one Pause;Resume caller (Resume must elect a consumer itself)
+W_Callers == {"s1", "p1"}
+W_Msgs == {"u1"}
+W_Sys == {}
+W_CallerScript == [t \in W_Callers |-> CASE t = "s1" -> << <<"enq", "u1">> >>
+                                        [] t = "p1" -> << <<"pause">>, <<"resume">> >>]
+W_MsgScript == [m \in W_Msgs |-> <<>>]
 =============================================================================
